@@ -300,7 +300,7 @@ class CodespeedReporter(Reporter):
         results = [self._prepare_result(run_id) for run_id in run_ids]
 
         if len(run_ids) == 1:
-            run_id = run_ids[0]
+            run_id = next(iter(run_ids))
         else:
             run_id = None
 
